@@ -944,6 +944,11 @@ class Exec:
         pure = (nt in PURE_EXTERNAL) or (target in self.pure) or (nt in self.pure)
         uid = None if pure else fresh()
         res = ("call", target, tuple(args), uid)
+        if pure and any(isinstance(a, tuple) and a[0] == "ref" and len(a) > 2 for a in args):
+            # the result of a pure function of `&x` depends on the value of x, not on which local holds it: `old.weaked()` and
+            # `prev.weaked()` with `prev = old` are the same term (and a test of the one decides the other)
+            res = ("call", target, tuple((a[0], a[1]) if isinstance(a, tuple) and a[0] == "ref" and len(a) > 2 and
+                                         isinstance(a[2], tuple) and a[2][0] == "local" else a for a in args), uid)
         if pure and not args and frame and c is not None:
             # a function of its type arguments alone (`size_of::<P>()`) inside an inlined generic helper: two instantiations of the
             # helper (`with_payload::<F>` and `with_payload::<Box<F>>`) must not produce the same term, or a test made for the one
